@@ -396,7 +396,11 @@ def paste_paths(
             # In case one is None, the other will be picked.
             # Note that now there is a chance of truncating the path while
             # pasting!
-            maxlen = max(path_back.maxlen, path_forw.maxlen)
+            maxlen = max(
+                i
+                for i in (path_back.maxlen, path_forw.maxlen)
+                if i is not None
+            )
             msg = f"Unequal length: Using {maxlen} for the new path!"
             logger.warning(msg)
     time_origin = path_back.time_origin - path_back.length + 1
